@@ -36,7 +36,7 @@ func (c15) Describe() CheckInfo {
 		},
 		RealCode:       []string{"gopatch main()/mainCmd.Run, findFiles/findGoFiles, internal/*"},
 		Stubs:          []string{"package os (simulated filesystem incl. symlinks, fifo, shuffled readdir)", "path/filepath Walk re-hosted on the simulated os", "io/ioutil"},
-		RequiredProbes: []string{"excluded-dir-nested", "symlink-to-dir", "symlink-to-file", "dir-named-like-go-file", "overlapping-args", "duplicate-args", "explicit-file-in-excluded-dir", "dotdot-respelling", "absolute-arg", "non-go-file", "absolute-noncanonical-arg", "readdir-shuffled", "permuted-rerun", "dot-named-go-file", "hard-link", "non-directory-with-excluded-name", "symlink-argument", "unparseable-file-in-requested-set", "excluded-dir-named-like-go-file", "argument-through-symlinked-directory", "name-with-pattern-characters"},
+		RequiredProbes: []string{"excluded-dir-nested", "symlink-to-dir", "symlink-to-file", "dir-named-like-go-file", "overlapping-args", "duplicate-args", "explicit-file-in-excluded-dir", "dotdot-respelling", "absolute-arg", "non-go-file", "absolute-noncanonical-arg", "readdir-shuffled", "permuted-rerun", "dot-named-go-file", "hard-link", "non-directory-with-excluded-name", "symlink-argument", "unparseable-file-in-requested-set", "excluded-dir-named-like-go-file", "argument-through-symlinked-directory", "name-with-pattern-characters", "resolved-path-beyond-path-max"},
 	}
 }
 
@@ -217,6 +217,32 @@ func (c15) Gen(env *Env, seed uint64, tier string, i int) *Case {
 			}
 		}
 		return true
+	}
+	// a directory whose resolved path is longer than PATH_MAX, reachable through
+	// short symbolic links: the files in it are perfectly accessible, only their
+	// canonical path cannot be handed to the kernel in one piece
+	if r.Chance(1, 25) {
+		seg := strings.Repeat("z", 200)
+		top := ProjDir + "/_deep" // pruned when the project directory itself is walked
+		mid := top
+		for k := 0; k < 19; k++ {
+			mid += "/" + seg
+		}
+		bottom := mid + "/" + seg + "/" + seg + "/pkg"
+		c.SetNode(world.NodeSpec{Path: bottom, Kind: "dir"})
+		for k := 0; k < 2; k++ {
+			id++
+			c.SetNode(world.NodeSpec{Path: fmt.Sprintf("%s/f%d.go", bottom, id), Kind: "file", Data: c15GoFile(id)})
+		}
+		links := []string{ProjDir + "/da", ProjDir + "/db"}
+		for _, l := range links {
+			c.SetNode(world.NodeSpec{Path: l, Kind: "symlink", Target: mid})
+		}
+		for _, l := range links[:r.Range(1, 2)] {
+			c.Targets = append(c.Targets, l+"/"+seg+"/"+seg+r.Pick([]string{"/pkg", "", "/pkg/" + fmt.Sprintf("f%d.go", id)}))
+		}
+		c.Extra["alias_arg"] = "1"
+		c.Extra["beyond_path_max"] = "1"
 	}
 	// arguments that reach a file or directory THROUGH a symlinked directory
 	// (the last component is real): the same file may then be named under two
@@ -470,6 +496,9 @@ func (c15) Eval(env *Env, c *Case) []Violation {
 	}
 	if c.Extra["glob_name"] == "1" {
 		env.Probe("name-with-pattern-characters")
+	}
+	if c.Extra["beyond_path_max"] == "1" {
+		env.Probe("resolved-path-beyond-path-max")
 	}
 	if c.Extra["has_nondir_excluded_name"] == "1" {
 		env.Probe("non-directory-with-excluded-name")
